@@ -60,13 +60,16 @@ def run(ctx, replay=None):
         maxdim = 5 if ctx.quick else 9
         areas = [[[0, h - 1], [0, w - 1]] for h in range(1, maxdim + 1) for w in range(1, maxdim + 1)]
         areas += [[[-6, 0], [-3, 3]], [[0, 6], [0, 6]], [[-2, 1], [-1, 3]], [[-1, 0], [-1, 1]]]
+        # large and elongated areas (long straight runs along a row / column, far borders)
+        areas += [[[0, 13], [0, 13]], [[0, 14], [0, 14]], [[0, 19], [0, 19]], [[0, 27], [0, 2]], [[0, 2], [0, 31]], [[-14, 0], [-7, 7]]]
         if not ctx.quick:
-            areas += [[[-8, 0], [-4, 4]], [[0, 10], [0, 10]], [[-3, 3], [-5, 2]], [[0, 12], [0, 12]]]
+            areas += [[[-8, 0], [-4, 4]], [[0, 10], [0, 10]], [[-3, 3], [-5, 2]], [[0, 12], [0, 12]], [[0, 25], [0, 25]], [[0, 40], [0, 4]], [[-5, 30], [-20, 2]]]
         for a in areas:
             (y0, y1), (x0, x1) = a
             cells = [(y, x) for y in range(y0, y1 + 1) for x in range(x0, x1 + 1)]
             if len(cells) > 81:
-                cells = rng.sample(cells, 12) + [(y0, x0), (y1, x1), ((y0 + y1) // 2, (x0 + x1) // 2)]
+                ym, xm = (y0 + y1) // 2, (x0 + x1) // 2
+                cells = rng.sample(cells, 12 if ctx.quick else 40) + [(y0, x0), (y1, x1), (y0, x1), (y1, x0), (ym, xm), (y0, xm), (y1, xm), (ym, x0), (ym, x1)]
             for (y, x) in cells:
                 jobs.append(dict(id=jid, kind='fan', area=a, origin=[y, x]))
                 jid += 1
